@@ -99,7 +99,7 @@ PROPS = {
         ],
     },
     'C08': {
-        'v_units': ['trap', 'pipeset'],
+        'v_units': ['trap', 'pipeset', 'subshellcmd'],
         'k_units': [],
         'level': 'proof',
         'explanation': (
@@ -117,12 +117,14 @@ PROPS = {
             'and holds nothing after the last shift, so no descriptor is left behind in the parent; PipeSet::move_to_stdin_stdout '
             '(in the child) makes standard input the previous pipe and standard output the next one, closes every other pipe '
             'descriptor and touches nothing else, including the corner cases where a pipe end already IS descriptor 0 or 1. '
-            'The descriptor table is an assumed model of the Pipe / Close / Dup traits.'),
+            'The descriptor table is an assumed model of the Pipe / Close / Dup traits.'
+            ' Unit subshellcmd (Verus, compound_command/subshell.rs execute + subshell_main): for `( ... )` exactly one child is started and what runs in it is subshell_main on exactly this body; the awaited result of exactly that child is interpreted once (handle_job_status), `$?` becomes the status it stands for, and errexit is consulted exactly once, afterwards, with that status (a failing subshell ends the shell under errexit) - unless interpreting the result diverts (stopped child / SIGINT in an interactive shell), which is handed on without errexit; a child that cannot be started gives an interrupt with the error status and leaves `$?` alone. Inside the child the body runs once, its result is applied (apply_result), and the EXIT trap runs exactly once, after both.'),
         'trusted_base': ['Verus 0.2026.09.13 + Z3', '/verif/tools/vextract.py'],
         'assumptions': [
             'unit pipeset: the system traits Pipe / Close / Dup are replaced by one synchronous model trait over a ghost descriptor table (fd -> open file description); pipe() returns two descriptors that were not open; close() removes, dup/dup2 add; Env reduced to the system field; a failing close (ignored by the code) is excluded by hypothesis in the no-leak clause; assert_ne! must not fail (obligation)',
             'same as C11 (model SignalSystem, stripped async, hash_map::Entry contract, derived PartialEq/Ord)',
             'TrapSet::enter_subshell is under contract (see C11): its two for loops are checked as while loops over an assumed model of the map iterator',
+            'unit subshellcmd: Config::foreground().start_and_wait(..) with its async closure, handle_job_status, apply_errexit / apply_result, print_error, List::execute and run_exit_trap are opaque calls that update a ghost monitor in the reduced Env (the job-name closure goes with the replaced call); await points dropped',
         ],
     },
     'C01': {
@@ -327,7 +329,7 @@ PROPS = {
         'assumptions': ['Mode::with_extensions only', 'two fixed option tables'],
     },
     'C02': {
-        'v_units': ['cmdsearch', 'looplevel', 'returnbi', 'whileloop', 'forloop', 'casecmd', 'condframe', 'simplecmd', 'funcall'],
+        'v_units': ['cmdsearch', 'looplevel', 'returnbi', 'whileloop', 'forloop', 'casecmd', 'condframe', 'simplecmd', 'funcall', 'subshellcmd'],
         'k_units': ['loopcount'],
         'level': 'other',
         'explanation': (
@@ -385,7 +387,8 @@ PROPS = {
             'branch only after every condition failed, has the status and result of the branch it ran, and status 0 when it ran none. '
             'NOT decided: everything else C02 says - which commands run in which order with which $?, multi-command pipelines, '
             'the pattern matching inside case (matches), subshells, built-in execution, the $PATH walk '
-            'itself (search_path: iterator adapters over strings, assumed), Env::builtin (availability under posixly-correct / portable).'),
+            'itself (search_path: iterator adapters over strings, assumed), Env::builtin (availability under posixly-correct / portable).'
+            ' Unit subshellcmd (Verus, compound_command/subshell.rs execute + subshell_main): for `( ... )` exactly one child is started and what runs in it is subshell_main on exactly this body; the awaited result of exactly that child is interpreted once (handle_job_status), `$?` becomes the status it stands for, and errexit is consulted exactly once, afterwards, with that status (a failing subshell ends the shell under errexit) - unless interpreting the result diverts (stopped child / SIGINT in an interactive shell), which is handed on without errexit; a child that cannot be started gives an interrupt with the error status and leaves `$?` alone. Inside the child the body runs once, its result is applied (apply_result), and the EXIT trap runs exactly once, after both.'),
         'trusted_base': ['Verus 0.2026.09.13 + Z3', 'Kani 0.68.0 + CBMC 6.11', '/verif/tools/vextract.py, /verif/tools/kunit.py'],
         'assumptions': [
             'unit cmdsearch: the methods of ClassifyEnv / PathEnv answer according to ghost views builtin_of / function_of / path_hit (implementor obligation, not verified); search_path is external_body (returns path_hit, leaves the environment alone); str::contains(char), CString::default / new are opaque helpers; Builtin / Function reduced to what the search reads; the raw identifier r#type is renamed (Verus aborts on it); derived PartialEq of Type is structural',
@@ -396,6 +399,7 @@ PROPS = {
             'unit forloop: expanding the name and the words, the positional parameters, tracing, get_or_create_variable + assign (checked as ONE helper call), executing the body and the error handlers are opaque calls observed by a ghost monitor; `for PATTERN in vec` is checked as `while let Some(x) = <take the first element off>` (assumed contract of the helper; Verus has no `continue` in for loops); preconditions: a fresh monitor and a NON-EMPTY body (the parser rejects `do done`; with an empty body the function would leave $? alone for an empty value list); RAII of the frame guard assumed; await points dropped; termination not claimed',
             'unit casecmd: expanding the subject, tracing, testing the patterns of one item (matches) and executing one body are opaque calls driving a ghost monitor; the two calls are given the item itself instead of its patterns / body field (items carry their index as ghost data; precondition items_wf); testing patterns is assumed to leave $? alone; `for item in items` is checked as a while loop over the index; enum CaseContinuation is extracted from yash-syntax; preconditions: a fresh monitor; await points dropped',
             'unit whileloop: List::execute and evaluate_condition are external_body (any result, appended to a ghost log in the reduced Env); `?` on ControlFlow through assumed contracts of Try::branch / FromResidual::from_residual; await points dropped; termination not claimed',
+            'unit subshellcmd: Config::foreground().start_and_wait(..) with its async closure, handle_job_status, apply_errexit / apply_result, print_error, List::execute and run_exit_trap are opaque calls that update a ghost monitor in the reduced Env (the job-name closure goes with the replaced call); await points dropped',
         ],
     },
     'C05': {
@@ -552,7 +556,7 @@ PROPS = {
         ],
     },
     'C10': {
-        'v_units': ['errexit', 'condframe', 'assignstatus', 'simplecmd', 'errhandle', 'fullcompound', 'replloop'],
+        'v_units': ['errexit', 'condframe', 'assignstatus', 'simplecmd', 'errhandle', 'fullcompound', 'replloop', 'subshellcmd'],
         'k_units': ['errexit'],
         'level': 'other',
         'explanation': (
@@ -585,7 +589,8 @@ PROPS = {
             'error), having taken the status the interrupt carries and thrown away the rest of the input line (interactive_read_eval_loop). '
             'NOT decided: which other commands consult '
             'apply_errexit, and the consequences-of-shell-errors table (special built-in errors, redirection errors, assignment errors, '
-            'expansion errors): all of that is async interpreter code outside both tools.'),
+            'expansion errors): all of that is async interpreter code outside both tools.'
+            ' Unit subshellcmd (Verus, compound_command/subshell.rs execute + subshell_main): for `( ... )` exactly one child is started and what runs in it is subshell_main on exactly this body; the awaited result of exactly that child is interpreted once (handle_job_status), `$?` becomes the status it stands for, and errexit is consulted exactly once, afterwards, with that status (a failing subshell ends the shell under errexit) - unless interpreting the result diverts (stopped child / SIGINT in an interactive shell), which is handed on without errexit; a child that cannot be started gives an interrupt with the error status and leaves `$?` alone. Inside the child the body runs once, its result is applied (apply_result), and the EXIT trap runs exactly once, after both.'),
         'trusted_base': ['Verus 0.2026.09.13 + Z3', 'Kani 0.68.0 + CBMC 6.11', '/verif/tools/vextract.py, /verif/tools/kunit.py'],
         'assumptions': [
             'struct Env is reduced to the fields the functions read (exit_status, options, stack) in the Verus unit; OptionSet::get is assumed to answer On iff the option is in the set',
@@ -596,6 +601,7 @@ PROPS = {
             'unit replloop: see C18 - parse, run_command and the parser-error handler are opaque calls driving a ghost monitor; RefCell<&mut Env> checked as &mut Env',
             'unit assignstatus: performing one assignment is an opaque call recorded in a ghost log; Option::or and Option::as_deref_mut (helper) have assumed contracts; await points dropped',
             'unit condframe: RAII of the frame guard is ASSUMED as a whole in the contract of Env::push_frame (external_body: while the guard lives the frame is on top; when it goes away one frame has been popped and the rest is as the guard left it) - Verus does not model destructors; what is verified is the destructor body (pops one frame) and the identical two-line body of Stack::push; running commands (List::execute, execute_commands_in_pipeline) is an opaque call that records (what, stack, status before/after, result) in a ghost log; Env reduced to exit_status / options / stack / log; `slice.iter().peekable()` is a hand-written index model; `&mut guard` (DerefMut) is checked as `guard.env`; an explicit drop(guard) is checked as the end of the guard\'s life; `?` on ControlFlow through assumed contracts; await points dropped; the option test of noexec is an assumed two-option model',
+            'unit subshellcmd: Config::foreground().start_and_wait(..) with its async closure, handle_job_status, apply_errexit / apply_result, print_error, List::execute and run_exit_trap are opaque calls that update a ghost monitor in the reduced Env (the job-name closure goes with the replaced call); await points dropped',
         ],
     },
 }
